@@ -867,6 +867,12 @@ pub fn main(tier: Tier, seed: u64) -> Report {
         "single hostile connection; the hostile peer is sequential".into(),
         "memory bound is checked through protocol-level ledgers (bytes sent beyond credit, unanswered requests, live task count), not through an allocator".into(),
     ];
+    let fuzz_secs: u64 = std::env::var("C08_FUZZ_SECS").ok().and_then(|s| s.parse().ok()).unwrap_or(240);
+    if std::env::var("C08_FUZZ_ONLY").is_ok() {
+        // Development switch: only the coverage-guided stage.
+        libfuzzer_stage(&mut rep, seed, fuzz_secs);
+        return rep;
+    }
     let regress: Vec<Case> = runner::load_regress::<Case>("C08", "hostile").into_iter().map(|(_, c)| c).collect();
     if !regress.is_empty() {
         runner::run_cases(&mut rep, "regress", regress, run_case);
@@ -880,7 +886,7 @@ pub fn main(tier: Tier, seed: u64) -> Report {
     runner::run_cases(&mut rep, "bytes-seeds", regress_b.into_iter().chain(seeds).collect(), run_bytes);
     runner::run_generated(&mut rep, "bytes", tier.pick(10_000, 300_000), bytes_strategy, run_bytes);
     if tier == Tier::Thorough {
-        libfuzzer_stage(&mut rep, seed, 240);
+        libfuzzer_stage(&mut rep, seed, fuzz_secs);
     }
     rep
 }
@@ -1016,42 +1022,63 @@ fn libfuzzer_stage(rep: &mut Report, seed: u64, secs: u64) {
     }
     let t0 = std::time::Instant::now();
     let jobs = std::env::var("VERIF_THREADS").ok().and_then(|s| s.parse::<u32>().ok()).unwrap_or(16).clamp(1, 16);
-    let output = Command::new("cargo")
+    // Build (remoc has no unsafe code outside its js executor, so the target is built without
+    // AddressSanitizer: several times the executions for the semantic oracle).
+    let build = Command::new("cargo")
         .current_dir(root.join("harness"))
         .env("CARGO_NET_OFFLINE", "true")
         .env("RUSTFLAGS", "--cfg remoc_verif --cfg tokio_unstable")
         .env_remove("CARGO_TARGET_DIR")
-        .args(["+nightly", "fuzz", "run", "c08_frames"])
+        .args(["+nightly", "fuzz", "build", "--sanitizer", "none", "c08_frames"])
+        .output();
+    let bin = root.join("target").join("x86_64-unknown-linux-gnu").join("release").join("c08_frames");
+    let built = matches!(&build, Ok(o) if o.status.success()) && bin.exists();
+    if !built {
+        let tail = match &build {
+            Ok(o) => String::from_utf8_lossy(&o.stderr).lines().rev().take(6).collect::<Vec<_>>().into_iter().rev().collect::<Vec<_>>().join(" | "),
+            Err(e) => format!("cargo could not be started: {e}"),
+        };
+        rep.parts.push(json!({"part": "libfuzzer", "status": "unavailable: the fuzz target did not build here", "tail": tail}));
+        rep.assumptions.push("the coverage-guided stage (cargo +nightly fuzz build c08_frames) was unavailable in this run; the byte-level search was done by the in-process generator only".into());
+        return;
+    }
+    let build_s = t0.elapsed().as_secs_f64();
+    // Independent workers sharing the corpus directory; each writes fuzz-<n>.log into `dir`.
+    let _ = Command::new(&bin)
+        .current_dir(&dir)
         .arg(&corpus)
-        .arg("--")
         .arg(format!("-artifact_prefix={}/", art.display()))
         .arg(format!("-max_total_time={secs}"))
         .arg(format!("-seed={}", if seed == 0 { 1 } else { seed & 0x7fff_ffff }))
-        .arg(format!("-fork={jobs}"))
-        .args(["-max_len=1500", "-len_control=0", "-timeout=30", "-rss_limit_mb=4096", "-ignore_timeouts=1", "-ignore_ooms=1", "-print_final_stats=1"])
+        .arg(format!("-jobs={jobs}"))
+        .arg(format!("-workers={jobs}"))
+        .args(["-max_len=1500", "-len_control=0", "-timeout=30", "-rss_limit_mb=4096", "-print_final_stats=1", "-reload=1"])
         .output();
-    let Ok(output) = output else {
-        rep.parts.push(json!({"part": "libfuzzer", "status": "unavailable: cargo could not be started"}));
-        return;
-    };
-    let text = format!("{}\n{}", String::from_utf8_lossy(&output.stdout), String::from_utf8_lossy(&output.stderr));
-    // Last progress line of fork mode: "#N: cov: C ft: F corp: K exec/s E oom/timeout/crash: a/b/c time: Ts ..."
     let mut execs = 0u64;
     let mut cov = 0u64;
     let mut ft = 0u64;
     let mut corp = 0u64;
-    for l in text.lines() {
-        let l = l.trim();
-        if let Some(rest) = l.strip_prefix('#') {
-            let mut it = rest.split_whitespace();
-            let n = it.next().unwrap_or("").trim_end_matches(':').parse::<u64>().unwrap_or(0);
-            let toks: Vec<&str> = rest.split_whitespace().collect();
-            let val = |key: &str| toks.iter().position(|t| *t == key).and_then(|i| toks.get(i + 1)).and_then(|v| v.split('/').next()).and_then(|v| v.parse::<u64>().ok());
-            if let (Some(c), Some(f)) = (val("cov:"), val("ft:")) {
-                execs = execs.max(n);
-                cov = cov.max(c);
-                ft = ft.max(f);
-                corp = val("corp:").unwrap_or(corp);
+    if let Ok(rd) = std::fs::read_dir(&dir) {
+        for e in rd.filter_map(|e| e.ok()) {
+            let name = e.file_name().to_string_lossy().to_string();
+            if !(name.starts_with("fuzz-") && name.ends_with(".log")) {
+                continue;
+            }
+            let Ok(text) = std::fs::read_to_string(e.path()) else { continue };
+            for l in text.lines() {
+                let l = l.trim();
+                if let Some(v) = l.strip_prefix("stat::number_of_executed_units:") {
+                    execs += v.trim().parse::<u64>().unwrap_or(0);
+                }
+                if l.starts_with('#') {
+                    let toks: Vec<&str> = l.split_whitespace().collect();
+                    let val = |key: &str| toks.iter().position(|t| *t == key).and_then(|i| toks.get(i + 1)).and_then(|v| v.split('/').next()).and_then(|v| v.parse::<u64>().ok());
+                    if let (Some(c), Some(f)) = (val("cov:"), val("ft:")) {
+                        cov = cov.max(c);
+                        ft = ft.max(f);
+                        corp = corp.max(val("corp:").unwrap_or(0));
+                    }
+                }
             }
         }
     }
@@ -1059,15 +1086,14 @@ fn libfuzzer_stage(rep: &mut Report, seed: u64, secs: u64) {
         .map(|rd| rd.filter_map(|e| e.ok()).map(|e| e.path()).filter(|p| p.file_name().and_then(|n| n.to_str()).map(|n| n.starts_with("crash-")).unwrap_or(false)).collect())
         .unwrap_or_default();
     if execs == 0 && crashes.is_empty() {
-        let tail: String = text.lines().rev().take(6).collect::<Vec<_>>().into_iter().rev().collect::<Vec<_>>().join(" | ");
-        rep.parts.push(json!({"part": "libfuzzer", "status": "unavailable: the fuzz target did not build or run here", "tail": tail}));
-        rep.assumptions.push("the coverage-guided stage (cargo +nightly fuzz run c08_frames) was unavailable in this run; the byte-level search was done by the in-process generator only".into());
+        rep.parts.push(json!({"part": "libfuzzer", "status": "unavailable: the fuzz target did not run here"}));
+        rep.assumptions.push("the coverage-guided stage (libFuzzer target c08_frames) did not run in this run; the byte-level search was done by the in-process generator only".into());
         return;
     }
     rep.evaluations += execs;
     rep.parts.push(json!({
         "part": "libfuzzer", "status": "ran", "executions": execs, "edge_coverage": cov, "features": ft, "corpus_units": corp,
-        "crash_artifacts": crashes.len(), "wall_s": t0.elapsed().as_secs_f64(), "forks": jobs, "budget_s": secs,
+        "crash_artifacts": crashes.len(), "wall_s": t0.elapsed().as_secs_f64(), "build_s": build_s, "workers": jobs, "budget_s": secs, "sanitizer": "none",
     }));
     rep.extra.insert("libfuzzer".into(), json!({"executions": execs, "edge_coverage": cov, "features": ft, "corpus_units": corp}));
     for c in crashes.iter().take(4) {
